@@ -1,5 +1,7 @@
 (* C04 -- Rate limiting: fire_count, fire_period and the time window are never exceeded. *)
 From Deep Require Import Base Config Limiter LimiterProofs.
+From DeepGen Require Import PLimits.
+From Deep Require Import TieLimits.
 
 (* for every history of hits (positive times, any order of magnitude, any conditions) and every
    setting: at most fire_count collections unless fire_count is -1 *)
@@ -57,3 +59,30 @@ Print Assumptions C04_concurrent.
 Theorem C04_unlocked_refuted : length (c_collected unlocked_witness) = 2%nat.
 Proof. exact conc_unlocked_refuted. Qed.
 Print Assumptions C04_unlocked_refuted.
+
+(* ---- tie by translation: LocationAction.can_trigger / try_trigger, TracepointWindow.in_window and
+   TracepointExecutionStats.fire as they are in /repo/src NOW are the model's functions, and what they allow is within the limits *)
+Theorem C04_the_code_is_the_model :
+  forall l s ts,
+  gen_can_trigger (fc l) (fp l) (ws l) (we l) (cnt s) (lastf s) ts = can_trigger l s ts /\
+  gen_in_window (ws l) (we l) ts = in_window l ts /\
+  gen_fire (cnt s) (lastf s) ts = (cnt (fire s ts), lastf (fire s ts)) /\
+  gen_try_trigger (fc l) (fp l) (ws l) (we l) (cnt s) (lastf s) ts =
+    (if can_trigger l s ts then ((cnt (fire s ts), lastf (fire s ts)), true) else ((cnt s, lastf s), false)).
+Proof. intros. repeat split; [apply tie_can_trigger | apply tie_in_window | apply tie_try_trigger]. Qed.
+Print Assumptions C04_the_code_is_the_model.
+
+Theorem C04_the_code_allows_only_within_limits :
+  forall fc fp ws we cnt lastf ts,
+  gen_can_trigger fc fp ws we cnt lastf ts = true ->
+  (fc = -1 \/ cnt < fc) /\ gen_in_window ws we ts = true /\ (lastf = 0 \/ fp * 1000000 <= ts - lastf).
+Proof. exact code_can_trigger_sound. Qed.
+Print Assumptions C04_the_code_allows_only_within_limits.
+
+(* the atomic step: a fire is recorded exactly when the limits allow it at that moment *)
+Theorem C04_the_code_records_iff_allowed :
+  forall fc fp ws we cnt lastf ts,
+  gen_try_trigger fc fp ws we cnt lastf ts =
+  if gen_can_trigger fc fp ws we cnt lastf ts then ((cnt + 1, ts), true) else ((cnt, lastf), false).
+Proof. exact code_try_trigger. Qed.
+Print Assumptions C04_the_code_records_iff_allowed.
